@@ -51,9 +51,9 @@ func normOfWire(m *gen.WireMsg) string {
 
 // genuine collects correctly signed events sent so far.
 // maxFrame keeps generated frames inside the relay's default MaxMessageLength
-// (100 000 bytes): a longer frame is answered by closing the connection with
+// (100 000 bytes, inclusive): a longer frame is answered by closing the connection with
 // StatusMessageTooBig, which is the documented size limit and outside C12's domain.
-const maxFrame = 99000
+const maxFrame = 100000
 
 // drawFrame draws one frame of at most maxFrame bytes (escaped spellings of a
 // re-used large event can multiply its size; such a draw is repeated).
@@ -75,8 +75,25 @@ func drawFrame1(t *rapid.T, label string, genuine *[]*mocrelay.Event) frame {
 	evDoc := func(e *mocrelay.Event) gen.JArr {
 		return gen.JArr{gen.JStr("EVENT"), gen.WireEventDoc(t, e, label+"doc.")}
 	}
-	k := rapid.IntRange(0, 21).Draw(t, label+"class")
+	k := rapid.IntRange(0, 23).Draw(t, label+"class")
 	switch {
+	case k == 22: // a valid message padded with insignificant whitespace up to the size limit
+		m := gen.WireClientMsg(t, rapid.SampledFrom([]string{"CLOSE", "REQ"}).Draw(t, label+"nearlabel"), false)
+		if strings.HasPrefix(m.SubID, sentinelPrefix) {
+			m.SubID = "x"
+		}
+		text := gen.Render(m.Doc, nil)
+		total := rapid.SampledFrom([]int{81920, 90111, 90112, 95000, 98304, 99990, 99999, 100000}).Draw(t, label+"neartotal")
+		if total > len(text) {
+			text = text[:1] + strings.Repeat(" ", total-len(text)) + text[1:]
+		}
+		return frame{Class: "valid:near-limit-" + m.Label, Text: text, Valid: true, norm: normOfWire(m)}
+	case k == 23: // an invalid message just inside the size limit (its rejection may be longer than the limit)
+		total := rapid.SampledFrom([]int{99950, 99990, 99993, 99999, 100000}).Draw(t, label+"neartotal")
+		head, tail := `["REQ","big",{"ids":["`, `"]}]`
+		unit := rapid.SampledFrom([]string{"a", "<", "\\\\"}).Draw(t, label+"nearunit")
+		n := (total - len(head) - len(tail)) / len(unit)
+		return frame{Class: "corrupt:near-limit-invalid", Text: head + strings.Repeat(unit, n) + tail, subID: "big"}
 	case k == 20: // large valid EVENT (tens of kilobytes, still inside the relay's default size limit)
 		unit := rapid.SampledFrom([]string{"x", "é", "<>&"}).Draw(t, label+"unit")
 		count := rapid.IntRange(12000, 28000).Draw(t, label+"biglen")
@@ -275,7 +292,13 @@ func TestC12Session(t *testing.T) {
 	col.Assume("frames stay within the configured size limit; JSON null in place of a value is not generated (Go decoders treat it as absent; not claimed either way)")
 	rapid.Check(t, func(t *rapid.T) {
 		h := newRecHandler()
-		rig := newWSRig(openOptions(), h)
+		opt := openOptions()
+		if rapid.Bool().Draw(t, "default_burst") {
+			// the default burst of the receive limiter with a refill rate that never makes a case wait
+			opt.RecvRateLimitBurst = mocrelay.NewDefaultRelayOption().RecvRateLimitBurst
+			opt.RecvRateLimitRate = 1e6
+		}
+		rig := newWSRig(opt, h)
 		defer rig.close()
 		var genuine []*mocrelay.Event
 		nconn := rapid.IntRange(1, 2).Draw(t, "connections")
@@ -402,7 +425,8 @@ func TestC12Session(t *testing.T) {
 			for i := 0; i < nout; i++ {
 				m := gen.ServerMsgValue(t, fmt.Sprintf("c%d.out%d.", ci, i))
 				if rapid.IntRange(0, 7).Draw(t, fmt.Sprintf("c%d.out%d.big?", ci, i)) == 0 {
-					m = mocrelay.NewServerNoticeMsg(strings.Repeat("n", rapid.IntRange(33000, 90000).Draw(t, fmt.Sprintf("c%d.out%d.biglen", ci, i))))
+					// also beyond what the relay itself accepts: the size limit is on what it reads
+				m = mocrelay.NewServerNoticeMsg(strings.Repeat("n", rapid.IntRange(33000, 150000).Draw(t, fmt.Sprintf("c%d.out%d.biglen", ci, i))))
 				}
 				if n, is := m.(*mocrelay.ServerNoticeMsg); is && strings.HasPrefix(n.Message, sentinelPrefix) {
 					n.Message = "x"
